@@ -219,7 +219,15 @@ DS_ATTR = {"FIND": "Identifier", "FINDREPO": "Identifier", "GET": "Identifier", 
            "NSET": "AttributeList", "NACTION": "ActionReply", "NCREATE": "AttributeList", "NCREATE0": "AttributeList", "NEVENT": "EventReply"}
 
 
+# the request's Message ID: an ordinary value and the ends of the legal range (a US element: 0 and 65535 are legal), in turn
+_MSG_IDS = (77, 0, 65535)
+_mid_turn = [0]
+
+
 def execute(svc: str, script: list[dict], ts=IMPL, keep_rig=False) -> dict:
+    global MSG_ID
+    _mid_turn[0] += 1
+    MSG_ID = _MSG_IDS[_mid_turn[0] % len(_MSG_IDS)]
     run = Run(svc, script)
     req, event = _request(svc)
     sop = getattr(req, "AffectedSOPClassUID", None) or getattr(req, "RequestedSOPClassUID", None)
